@@ -80,3 +80,69 @@ class SFNTReaderOpen(_ZlibPatch, Contract):
 
     raises = {TTLibError: None}
     ensures = []
+
+
+# -- fetching a table ------------------------------------------------------------------------------
+
+def _entry_reader(self_contract, S, woff):
+    mod = self_contract.mod
+    cls = mod.SFNTReader
+    r = object.__new__(cls)
+    if S.concrete:
+        import io
+        r.file = io.BytesIO(S.values.get("file") or b"")
+    else:
+        at = Atom("file")
+        S.ctx.symbols["file"] = ("bytes", at.arr, at.n.t)
+        S.ctx.assume_term(at.n.t >= 0)
+        r.file = SymFile(at.blob())
+        r._atom = at
+    r.checkChecksums = 0
+    e = (mod.WOFFDirectoryEntry if woff else mod.SFNTDirectoryEntry)()
+    e.tag = "glyf"
+    e.offset = S.int("offset", 0, 2 ** 32 - 1)
+    e.length = S.int("length", 0, 2 ** 32 - 1)
+    e.checkSum = S.int("checkSum", 0, 2 ** 32 - 1)
+    if woff:
+        e.origLength = S.int("origLength", 0, 2 ** 32 - 1)
+    r.tables = {_RealTag("glyf"): e}
+    return r, e
+
+
+@contract
+class SFNTReaderGetItem(_ZlibPatch, Contract):
+    """reader[tag] for ANY directory entry (offset, length, WOFF origLength) over ANY file:
+    either TTLibError, or exactly the `length` bytes at `offset` of the file (plain sfnt: the
+    pass-through of C01), or for WOFF what zlib returned with the recorded original length."""
+    module = "fontTools.ttLib.sfnt"
+    qualname = "SFNTReader.__getitem__"
+    props = ("C20", "C01")
+    rebind = staticmethod(_reader_rebind)
+    variants = ("sfnt", "woff")
+
+    def args(self, S, variant):
+        r, e = _entry_reader(self, S, variant == "woff")
+        return dict(self=r, tag="glyf", _e=e)
+
+    def call(self, f, a):
+        return f(a.self, a.tag)
+
+    raises = {TTLibError: None}
+
+    @staticmethod
+    def _post(a, r):
+        e = a._e
+        if not hasattr(a.self, "_atom"):          # native replay
+            data = a.self.file.getvalue()
+            if hasattr(e, "origLength") and e.length != e.origLength:
+                return len(r) == e.origLength
+            return r == data[e.offset:e.offset + e.length] and len(r) == e.length
+        b = Blob.of(r)
+        if hasattr(e, "origLength"):
+            if bool(eq(e.length, e.origLength)):
+                return b.same(a.self._atom.blob()._slice(e.offset, e.offset + e.length))
+            return And(eq(b.__symlen__(), e.origLength), e.length < e.origLength)
+        want = a.self._atom.blob()._slice(e.offset, e.offset + e.length)
+        return And(b.same(want), eq(b.__symlen__(), e.length))
+
+    ensures = [prop("exactly-the-bytes-the-directory-entry-points-to", lambda a, old, r: SFNTReaderGetItem._post(a, r))]
